@@ -179,6 +179,33 @@ def monitor(r):
             i = next((j for j in range(min(len(live), len(stream))) if live[j] != stream[j]), min(len(live), len(stream)))
             bad.append(("stream-differs-across-restart", "client %d: what was served incrementally (%d fetches, resume by lastseen) differs from the whole stream "
                         "fetched at the end at position %d: %s vs %s" % (rd["k"], rd["fetches"], i, live[i:i + 3], stream[i:i + 3])))
+        # LIVE READER: what the long-poll reader of this session received while the others were posting (reconnecting with the
+        # last id it saw after restarts / superseded streams) = the whole stream: every message exactly once, same order
+        if rd.get("live_reader"):
+            checks += 1
+            lr = [tuple(x) for x in rd["live_read"]]
+            if lr != stream:
+                lc = {}
+                for x in lr:
+                    lc[x] = lc.get(x, 0) + 1
+                missed = [x for x in stream if lc.get(x, 0) == 0]
+                dup = [x for x, n in lc.items() if n > count.get(x, 0)]
+                ctx = "client %d (live reader: %d connects, finished=%s, errors=%s)" % (rd["k"], rd["live_connects"], rd["live_finished"], rd.get("live_errors", [])[:3])
+                if missed:
+                    acked = [x for x in missed if sent.get(x)]
+                    bad.append(("live-reader-missed-message", "%s never received %d of %d messages that are in its stream (%d of them acknowledged to their senders), "
+                                "first: %s" % (ctx, len(missed), len(stream), len(acked), [list(x) for x in missed[:5]])))
+                elif dup:
+                    bad.append(("live-reader-duplicate", "%s received %s more often than the stream holds it" % (ctx, [list(x) for x in dup[:5]])))
+                else:
+                    i = next((j for j in range(min(len(lr), len(stream))) if lr[j] != stream[j]), min(len(lr), len(stream)))
+                    bad.append(("live-reader-order", "%s received the messages in another order than the stream, from position %d: %s vs %s"
+                                % (ctx, i, lr[i:i + 3], stream[i:i + 3])))
+            elif not rd["live_finished"]:
+                bad.append(("live-reader-stalled", "client %d: the live reader received every PRIVMSG but never the PONG to its final PING (%s)"
+                            % (rd["k"], rd.get("live_errors", [])[:3])))
+            if rd["live_ids_not_increasing"]:
+                bad.append(("live-reader-ids-not-increasing", "client %d: %d messages arrived at the live reader with a non-increasing id" % (rd["k"], rd["live_ids_not_increasing"])))
         if rd["ids_not_increasing"]:
             bad.append(("stream-ids-not-increasing", "client %d: %d messages arrived with a non-increasing id" % (rd["k"], rd["ids_not_increasing"])))
     # all receivers see the same relative order
@@ -235,6 +262,7 @@ def run(ck, replay):
         "few D14 scenarios, in front of FSM.Apply; except in the RI fault the child announces its port only after a raft Barrier",
         "the scripted clients (retry with the same ClientMessageId until HTTP 200, 4xx is final, 40 s request timeout > every scripted pause) and the end-of-stream "
         "marker (PONG to a PING the client posted last)",
+        "the live readers' client-side resume logic (lastseen = id.reply of the last completely decoded message)",
         "the python monitor in props/c05.py (multiset/sequence comparisons on (sender nick, text) of PRIVMSG lines)"]
     ck.assumptions += [
         "raft's own safety (one totally ordered committed log, leader completeness, nothing invented or duplicated): ASSUMED as the Section hypotheses "
@@ -288,7 +316,7 @@ def run(ck, replay):
         return
 
     dist = {"scenarios": len(lines), "clients": 0, "posts": 0, "acked_posts": 0, "retried_posts": 0, "answers_dropped": 0, "node_starts": 0,
-            "snapshots_on_disk": 0, "incremental_fetches": 0, "retry_refused_while_replaying": 0, "faults_generated": kinds_gen, "steps_executed": {}, "failed_attempts": {}}
+            "snapshots_on_disk": 0, "incremental_fetches": 0, "retry_refused_while_replaying": 0, "live_readers": 0, "live_reader_connects": 0, "live_reader_messages": 0, "faults_generated": kinds_gen, "steps_executed": {}, "failed_attempts": {}}
     nontriv, checks_total, seen_sig, harness_all = set(), 0, set(), []
     samples = []
     for line, r in zip(lines, res):
@@ -298,6 +326,9 @@ def run(ck, replay):
         for c in r["clients"]:
             dist["clients"] += 1
             dist["incremental_fetches"] += c["fetches"]
+            dist["live_readers"] += int(bool(c.get("live_reader")))
+            dist["live_reader_connects"] += c.get("live_connects", 0)
+            dist["live_reader_messages"] += len(c.get("live_read", []))
             for p in c["posts"]:
                 dist["posts"] += 1
                 dist["acked_posts"] += int(p["acked"])
@@ -343,7 +374,9 @@ def run(ck, replay):
                       "written / during a concurrent round, answer dropped on the client side, forced /snapshot (idle or during a round), SIGSTOP-SIGCONT (idle or during a "
                       "round), RI = answer dropped + SIGKILL at that moment + restart WITHOUT waiting for the raft Barrier + the same body repeated every 200 us (D14); "
                       "restart on the same directories with 0-4 ms delay in front of the raft log store; plus a grid of D14 shapes (sessions inside/outside a snapshot, "
-                      "0-900 entries behind it, announced at leadership or when the listener is up, optional 200 us delay in front of FSM.Apply). non-trivial = scenario (distinct by text) in which the node "
+                      "0-900 entries behind it, announced at leadership or when the listener is up, optional 200 us delay in front of FSM.Apply). Every client keeps a LIVE "
+                      "long-poll reader open from its JOIN on (reconnecting with the last id it saw after restarts and superseded streams, paused only during its own G "
+                      "fetches); what it received is compared with the whole stream fetched from 0.0 at the end. non-trivial = scenario (distinct by text) in which the node "
                       "was restarted at least once AND at least one POST had to be repeated (measured on the run)")
     ck.cov["input_distribution"] = dist
     ck.cov["samples"] = samples
